@@ -61,8 +61,12 @@ def run(ck):
     n = min(cfg['batch'], cfg['clean_c12'] - done)
     batch = [G.gen_clean(random.Random(rng.getrandbits(64)), BE, {'wide': True, 'structs': 0.8, 'ifc': 0.35}) for _ in range(n)]
     U.run_batch(ck, BE, batch, stats, cfg['ncycles'], cfg['nstores'])
+    # "… and hence like the SystemVerilog translation": a sample of the same designs through the Verilog backend
+    sv = [dict(d, label='clean-also-verilog') for d in batch[::5]]
+    U.run_batch(ck, 'verilog', sv, stats, cfg['ncycles'], 2, tie=False)
+    stats['also_through_verilog_backend'] = stats.get('also_through_verilog_backend', 0) + len(sv)
     done += n
-    if len(ck.violations) > 80: break
+    if len([v for v in ck.violations if not str(v.signature.get('finding', 'none')).startswith('F')]) > 40: break
     if ck.tier == 'quick' and ck.elapsed() > 75: break
   ck.extra_cov['pipeline'] = stats
   ck.extra_cov['designs'] = {'corpus': len(corpus), 'finding_streams': len(fd), 'clean': done}
